@@ -477,7 +477,7 @@ func check(prop, tier string) int {
 	if w := os.Getenv("DSIM_WORKERS"); w != "" {
 		workers, _ = strconv.Atoi(w)
 	}
-	deadline := start.Add(bud.Wall)
+	deadline := time.Now().Add(bud.Wall) // the exploration budget starts once the build is done
 
 	// work queue of run-index chunks
 	type chunk struct{ from, to int }
